@@ -1,4 +1,5 @@
 mod ast;
+mod bcv;
 mod diff;
 mod enumerate;
 mod gen;
@@ -11,6 +12,7 @@ mod props;
 mod rng;
 mod sup;
 mod val;
+mod xform;
 
 use sup::{Check, Ctx, Tier};
 
@@ -130,6 +132,28 @@ fn main() {
                 println!("{:2} [{}] {} out={:?} stack={} frames={} count={}   <- {}", i + 1, l.stage, l.outcome.render(), l.output, l.stack_len, l.frames, l.count, lines[i].text);
             }
             println!("events: {:?}", ev);
+        }
+        "eval-one" => {
+            // program on stdin, canonical rendering of the outcome on stdout (C16: fresh process / other build)
+            obs::install_panic_hook();
+            let mut text = String::new();
+            use std::io::Read;
+            std::io::stdin().read_to_string(&mut text).unwrap();
+            println!("{}", props::c16::rendering(&text));
+        }
+        "debug-eval" => {
+            // nlv debug-eval <file> [t|f ...]: evaluate under probes with an optional branch schedule, print the trace
+            obs::install_panic_hook();
+            let text = std::fs::read_to_string(&args[2]).unwrap();
+            let sched: Vec<bool> = args[3..].iter().map(|a| a == "t").collect();
+            let cfg = obs::ObsCfg { budget: Some(2000), probes: true, shadow: nederlang::verif::ShadowMode::Quarantine, trace: true, branch_schedule: if sched.is_empty() { None } else { Some(sched) } };
+            let o = obs::eval_observed(&text, &cfg);
+            let (tr, _) = nederlang::verif::take_trace();
+            println!("{} output={:?} events={:?} count={}", o.outcome.render(), o.output, o.events, o.count);
+            let names: std::collections::HashMap<u8, String> = nederlang::verif::opcode_table().into_iter().map(|(b, n, _)| (b, n)).collect();
+            for t in tr.iter().take(200) {
+                println!("  ip={:4} {:18} stack={} bp={} frames={}", t.ip, names.get(&t.op).cloned().unwrap_or_default(), t.stack_len, t.bp, t.frames);
+            }
         }
         "run-sub" => {
             // the sharded part only, statistics on stdout (used for the dbg / asan passes)
